@@ -112,6 +112,26 @@ func gen(tier string) []proto.Item {
 				}
 			}
 		}
+		// the genuine reply of a hop is lost and what arrives instead is the same reply with another IP version nibble (every
+		// value that is neither 4 nor 6): not an IP packet of a family the tool speaks - the hop stays empty
+		if vi.Parallel {
+			for _, pos := range []int{2, 3} {
+				for a := 0; a < 16; a++ {
+					if a == 4 || a == 6 {
+						continue
+					}
+					s := base(v, false)
+					form := vi.TEForm
+					from := proto.Router(vi.V6, 0, pos).String()
+					if pos == 3 {
+						form, from = vi.DestForm, s.Target().String()
+					}
+					s.Hops = map[int]proto.HopSpec{pos: {LostReply: true}}
+					s.Inject = []proto.Inject{{OnTTL: pos, AnswerTTL: pos, Form: form, From: from, DelayUs: proto.DefaultDelayUs(pos), Tag: "noise", NoiseKind: "version", NoiseArg: a}}
+					items = append(items, proto.Item{Scn: s, Class: fmt.Sprintf("%s/%s/version/own-flow/instead-of-the-lost-genuine-reply/ttl%d", v, form, pos)})
+				}
+			}
+		}
 		// structure-aware mutations: valid headers whose identifying fields carry hostile values (own flow), delivered
 		// after the genuine reply of their TTL; +-1 is left out because it yields a neighbouring probe's identifier
 		for _, g := range []struct {
